@@ -17,13 +17,13 @@ import (
 type KeyStyle int
 
 const (
-	KeyNone       KeyStyle = iota
-	KeyField               // deprecated exported field (own X509KeyStore implementation)
-	KeySetter              // SetSPKeyStore / SetSPSigningKeyStore
-	KeyBoth                // field and setter, same key
-	KeyTLS                 // field holding a dsig.TLSCertKeyStore
-	KeyBothDiffer          // setter holds the key; the deprecated field holds another one (setter wins)
-	KeyBothDifferTLS       // as KeyBothDiffer, the field being a dsig.TLSCertKeyStore
+	KeyNone          KeyStyle = iota
+	KeyField                  // deprecated exported field (own X509KeyStore implementation)
+	KeySetter                 // SetSPKeyStore / SetSPSigningKeyStore
+	KeyBoth                   // field and setter, same key
+	KeyTLS                    // field holding a dsig.TLSCertKeyStore
+	KeyBothDiffer             // setter holds the key; the deprecated field holds another one (setter wins)
+	KeyBothDifferTLS          // as KeyBothDiffer, the field being a dsig.TLSCertKeyStore
 )
 
 func (k KeyStyle) String() string {
